@@ -29,7 +29,7 @@ struct FwConfig {
 
 // handler action bits
 enum : u16 { HA_RESTART_T0 = 1, HA_AUDIO = 2, HA_REPLY = 4, HA_ACK = 8, HA_TRIGGER = 16, HA_IDLE_INSIDE = 32, HA_RESTART_T1 = 64,
-             HA_EINT = 128, HA_EVENT = 256, HA_DMA = 512 };
+             HA_EINT = 128, HA_EVENT = 256, HA_DMA = 512, HA_EINT_FIRST = 1024 };
 
 inline u16 timer_cfg_word(int mode, bool pause, bool mu, bool restart) {
     return (u16)((mode & 7) << 2 | (pause ? 1 : 0) << 8 | (mu ? 1 : 0) << 9 | (restart ? 1 : 0) << 10);
@@ -59,12 +59,19 @@ inline void fw_from_plan(const Plan& p, FwConfig& c) {
 
 inline void fw_build(FwConfig& c, Asm& a) {
     a.org(0x0000).br(FW_INIT);
-    a.org(0x0006).br(FW_H0);
-    a.org(0x000E).br(FW_H1);
-    a.org(0x0016).br(FW_H2);
+    // the instruction AT the vector address is either the branch to the handler or, with HA_EINT_FIRST, an `eint`: the handler is
+    // interruptible from its very first boundary on, also by a second request of the same line
     const u32 haddr[4] = {FW_H0, FW_H1, FW_H2, FW_HV};
+    for (int h = 0; h < 3; ++h) {
+        a.org(0x0006 + 8 * (u32)h);
+        if (c.hact[h] & HA_EINT_FIRST)
+            a.w(op::EINT);
+        a.br(haddr[h]);
+    }
     for (int h = 0; h < 4; ++h) {
         a.org(haddr[h]);
+        if (h == 3 && (c.hact[h] & HA_EINT_FIRST))
+            a.w(op::EINT);
         a.w(op::INC_A1);
         u16 act = c.hact[h], par = c.hparam[h];
         if (act & HA_EINT)
